@@ -147,6 +147,12 @@ def guards(body, bb, _depth=0):
             edges = [(v, tgt) for v, tgt in t['targets']] + [(None, t['otherwise'])]
             live = [(v, tgt) for v, tgt in edges if body.blocks[tgt]['term']['k'] != 'unreachable']
             reaching = [v for v, tgt in live if bb in body.reachable_from([tgt], avoid={g})]
+            if reaching == [None]:
+                # reached through `otherwise`: on a two-variant discriminant that is the one value without an explicit target
+                explicit = {v for v, _ in t['targets']}
+                cand = [k for k in origin if k not in explicit]
+                if len(cand) == 1 and len(explicit) == 1:
+                    reaching = cand
             if len(reaching) == 1 and reaching[0] in origin:
                 for x in guards(body, origin[reaching[0]], _depth + 1):
                     if not any(x['block'] == y['block'] for y in out):
